@@ -235,9 +235,11 @@ def sym(kind: str, lens: list, cuts: int, path: str, hint: int = 3, seplen: int 
                 p = S.bytes(n, f"p{i}_")
                 S.assume(p.find(sep) < 0)
                 S.assume(p[0] != L.MARK)
-                if kind == "rawsep-nocheck":
-                    # without the sender-side check the documented validity also excludes a payload whose tail + separator forms an earlier separator
-                    S.assume((p + sep).find(sep) == n)
+                # validity for separator framing: the first separator in payload+separator is the appended one.  For a separator
+                # with a border (a proper prefix that is also a suffix, e.g. 00 ff 00, or CRLF CRLF) a payload ending with that
+                # prefix is ambiguous on the wire whatever the receiver does; the sender-side check (separator not IN the payload)
+                # does not reject it - recorded as an observation in DESIGN.md section 5, not claimed as a violation.
+                S.assume((p + sep).find(sep) == n)
                 packets.append(p)
             if kind == "converter":
                 converter = WrapConverter()
